@@ -154,6 +154,19 @@ func NewLinearFeeFunction(maxFeeRate chainfee.SatPerKWeight,
 		return nil, fmt.Errorf("estimate initial fee rate: %w", err)
 	}
 
+	// The caller-specified starting fee rate doesn't go through the fee
+	// estimator, so it's not lifted to the fee floor as an estimated fee
+	// rate would be. Because the user can specify 1 sat/vByte on the RPC
+	// interface, which corresponds to 250 sat/kw, we need to bump that to
+	// the minimum "safe" fee rate which is 253 sat/kw, otherwise the tx
+	// created won't be relayed.
+	if startingFeeRate.IsSome() && start < chainfee.FeePerKwFloor {
+		log.Infof("Starting fee rate %v is too low, using %v instead",
+			start, chainfee.FeePerKwFloor)
+
+		start = chainfee.FeePerKwFloor
+	}
+
 	// Calculate how much fee rate should be increased per block.
 	end := l.endingFeeRate
 
